@@ -446,7 +446,7 @@ func judgeRequest(rc *routeCfg, g *genReq, userIP string, sr *seenReq) []verdict
 	if sr.BodyErr != "" {
 		bad("req-body-broken", "backend could not read the request body: %s (after %d bytes of %d)", sr.BodyErr, sr.BodyLen, g.BodySize)
 	} else if sr.BodyLen != g.BodySize || sr.BodySHA != bodySHA(g) {
-		bad("req-body-changed", "request body (%s framing, %d bytes, sha %s): backend saw %d bytes, sha %s", g.Framing, g.BodySize, bodySHA(g)[:12], sr.BodyLen, sr.BodySHA[:12])
+		bad("req-body-changed", "request body (%s framing, %d bytes, sha %.12s): backend saw %d bytes, sha %.12s", g.Framing, g.BodySize, bodySHA(g), sr.BodyLen, sr.BodySHA)
 	}
 	return out
 }
